@@ -19,7 +19,7 @@ import (
 type c05Diff struct {
 	Step int    `json:"step"`
 	Link int    `json:"link"` // index among the step's links
-	Kind string `json:"kind"` // add-material | drop-product | digest | alg-name | add-alg | rename-path
+	Kind string `json:"kind"` // add-material | drop-product | digest | odd-digest | alg-name | add-alg | rename-path | respell-path
 }
 
 type c05Decoy struct {
@@ -51,7 +51,7 @@ func c05Gen(t *rapid.T) c05Case {
 	n := len(c.World.Layout.Meta.Layout.Steps)
 	if rapid.IntRange(0, 2).Draw(t, "hasdiff") > 0 {
 		c.Diff = &c05Diff{Step: rapid.IntRange(0, n-1).Draw(t, "diffstep"), Link: rapid.IntRange(0, 3).Draw(t, "difflink"),
-			Kind: rapid.SampledFrom([]string{"add-material", "drop-product", "digest", "alg-name", "add-alg", "rename-path", "respell-path", "respell-path"}).Draw(t, "diffkind")}
+			Kind: rapid.SampledFrom([]string{"add-material", "drop-product", "digest", "alg-name", "add-alg", "rename-path", "respell-path", "respell-path", "odd-digest", "odd-digest"}).Draw(t, "diffkind")}
 	}
 	if rapid.Bool().Draw(t, "hasdecoy") {
 		c.Decoy = &c05Decoy{Step: rapid.IntRange(0, n-1).Draw(t, "decoystep"), Kind: rapid.SampledFrom([]string{"unauthorised", "tampered", "unsigned"}).Draw(t, "decoykind"),
@@ -187,6 +187,11 @@ func c05Run(c c05Case, r *hx.Rec) error {
 			}
 		case "digest":
 			l.Products[prods[0]]["sha256"] = strings.Repeat("0", 64)
+			diffApplied = kind
+		case "odd-digest":
+			// a dissenting value that is no hexadecimal digest at all is still a dissent
+			d := l.Products[prods[0]]["sha256"]
+			l.Products[prods[0]]["sha256"] = []string{"0x" + d, "sha256:" + d, "", d + "=", "not a digest", d[:len(d)/2] + "zz" + d[len(d)/2:]}[c.Diff.Link%6]
 			diffApplied = kind
 		case "alg-name":
 			d := l.Products[prods[0]]["sha256"]
